@@ -9,6 +9,7 @@ import (
 	"time"
 
 	"github.com/fiorix/go-diameter/v4/diam"
+	"github.com/fiorix/go-diameter/v4/diam/sm"
 	"github.com/fiorix/go-diameter/v4/diam/datatype"
 	"github.com/ishidawataru/sctp"
 )
@@ -26,12 +27,14 @@ func init() {
 		Assume:  []string{"the association is consumed by the connection's single reader loop, as the property specifies; the concurrent-reader branches of SCTPConn.Read are not reachable from it"},
 		Scenarios: []*Scenario{
 			{Name: "streams", Weight: 1, Bubble: true, Run: func(e *Env) { c19Run(e, false, nil) }},
+			{Name: "state-machine-replies", Weight: 1, Bubble: true, Run: func(e *Env) { c19SmStreams(e, "C19") }},
 			{Name: "sweep-interleavings", Bubble: true, Run: c19Sweep, SweepN: c19SweepN, Exhaustive: true,
 				SweepNote: "3 streams x 2 messages each, each stream cut into 3 chunks by one of 4 split patterns (64 combinations) x all 1680 interleavings of the 9 chunks, fed one chunk per step"},
 		},
-		MustProbes: []string{"other-stream-buffered", "chunk-ends-in-header", "chunk-spans-messages", "three-streams-buffered"},
+		MustProbes: []string{"other-stream-buffered", "chunk-ends-in-header", "chunk-spans-messages", "three-streams-buffered", "sm-reply-on-nonzero-stream"},
 	})
 	c16.Scenarios = append(c16.Scenarios, &Scenario{Name: "sctp-answer", Weight: 3, Bubble: true, Run: func(e *Env) { c19Run(e, true, nil) }})
+	c16.Scenarios = append(c16.Scenarios, &Scenario{Name: "sctp-state-machine-replies", Weight: 1, Bubble: true, Run: func(e *Env) { c19SmStreams(e, "C16") }})
 }
 
 type sctpChunk struct {
@@ -1268,4 +1271,83 @@ func c15Sctp(e *Env) {
 	}
 	e.Quiesce()
 	_ = reports
+}
+
+// c19SmStreams: the replies the library itself builds — the state machine's CEA and DWA — on a
+// multi-stream association: each goes out on the stream its request arrived on, mirroring it.
+func c19SmStreams(e *Env, prop string) {
+	t := e.T
+	e.TrustWait = true
+	be := newSimSCTP(e)
+	msc := diam.NewVerifSCTPConn(be)
+	defer diam.VerifSCTPRelease(msc)
+	settings := &sm.Settings{OriginHost: "srv.dsim.example", OriginRealm: "dsim.example", VendorID: 13, ProductName: "dsim",
+		HostIPAddresses: []datatype.Address{datatype.Address(net.IPv4(172, 16, 0, 1))}}
+	if t.Chance(1, 3) {
+		settings.OriginStateID = 7
+	}
+	mach := sm.New(settings)
+	if _, err := diam.NewConn(msc.(net.Conn), "sim", mach, nil); err != nil {
+		e.Harness("NewConn: %v", err)
+	}
+	defer func() { be.End(io.EOF); e.Quiesce() }()
+	type sent struct {
+		req    RefMsg
+		stream uint16
+		what   string
+	}
+	var reqs []sent
+	feed := func(m RefMsg, what string) {
+		st := uint16(t.Draw(16))
+		b := m.Bytes()
+		if t.Chance(1, 3) && len(b) > 30 {
+			cut := t.Range(1, len(b)-1)
+			be.Feed(sctpChunk{st, b[:cut]})
+			e.Quiesce()
+			be.Feed(sctpChunk{st, b[cut:]})
+		} else {
+			be.Feed(sctpChunk{st, b})
+		}
+		e.Quiesce()
+		reqs = append(reqs, sent{m, st, what})
+		if st != 0 {
+			e.Probe("sm-reply-on-nonzero-stream")
+		}
+	}
+	spec := cerSpec{host: true, realm: true, inband: t.Draw(2), entries: []appEntry{{kind: "auth", id: 4}}, hbh: c16IDs[t.Draw(4)], e2e: c16IDs[t.Draw(4)], flags: byte(t.Draw(2)) << 6}
+	feed(spec.msg("peer.example", "example"), "cea")
+	for i, n := 0, t.Range(1, 4); i < n; i++ {
+		dwr := RefMsg{Cmd: cmdDW, Flags: 0x80 | byte(t.Draw(2))<<6, HbH: 0x6000 + uint32(i), E2E: c16IDs[t.Draw(4)] ^ uint32(i+1), AVPs: identAVPs("peer.example", "example", true, true)}
+		if t.Chance(1, 3) {
+			dwr.AVPs = append(dwr.AVPs, RefAVP{Code: avpOriginState, Flags: 0x40, Data: u32(uint32(t.Draw(3)))})
+		}
+		feed(dwr, "dwa")
+	}
+	e.NonTrivial()
+	be.mu.Lock()
+	ws := append([]sctpWrite{}, be.writes...)
+	be.mu.Unlock()
+	if len(ws) != len(reqs) {
+		e.Fail(prop+"/reply-count", "the state machine got a CER and %d DWRs from a handshaken peer; %d replies reached the association", len(reqs)-1, len(ws))
+		return
+	}
+	for i, w := range ws {
+		rm, err := refParse(w.data)
+		if err != nil {
+			e.Fail(prop+"/reply-unparsable", "reply %d does not parse: %v", i, err)
+			return
+		}
+		rq := reqs[i]
+		if w.stream != rq.stream {
+			sig := "C19/reply-on-wrong-stream/state-machine"
+			if prop == "C16" {
+				sig = "C16/answer-on-wrong-stream/state-machine"
+			}
+			e.Fail(sig, "the %s for the request received on stream %d was written to stream %d", rq.what, rq.stream, w.stream)
+			return
+		}
+		if !mirrorHeader(prop, rq.what, e, rq.req, &rm) {
+			return
+		}
+	}
 }
